@@ -13,32 +13,38 @@ namespace VelaVerif.Props.C10
 open VelaVerif.Box VelaVerif.Receptive VelaVerif.Stripes VelaVerif.Cascade
 
 /-- **Receptive field of a stripe, rows** (no upscaling; any kernel `k`, stride `s`, dilation `d`, top
-    padding, IFM height `H`, write offset `w0`, stripe `[y0, y1)`).  For the IFM box `[a, b)` and the
-    `pad_top`/`pad_bottom` that `transform_with_strides_and_skirt` returns:
-    * the equations of DESIGN.md: `a - pt = y0*s - top`, `pt = 0 ∨ a = 0`, and
-      `a + ((y1-y0-1)*s + k_dil - pt - pb) = min(y1*s - s - top + k_dil, H)`;
+    padding, write offset `w0`, stripe `[y0, y1)`, and any fused slice read: the operator reads the `H` rows
+    starting at row `off` of the stored tensor).  For the IFM box `[a, b)` and the `pad_top`/`pad_bottom` that
+    `transform_with_strides_and_skirt` returns:
+    * the equations of DESIGN.md: `a - pt = off + y0*s - top`, `pt = 0 ∨ a = off`, and
+      `a + ((y1-y0-1)*s + k_dil - pt - pb) = off + min(y1*s - s - top + k_dil, H)`;
     * every tap of every output row reads exactly what the un-striped operator reads (`Receptive`);
     * the box contains every row the hardware touches (`BoxCovers`; it may be larger).
-    Hypotheses: the stripe ends inside the IFM height (`y1 - w0 ≤ H`, see
-    `stripe_receptive_tall_ofm_witness` for what happens otherwise) and the skirt is at least the
-    minimal total padding `k_dil - s` (true of `calc_padding_and_skirt`, whose skirt sums to
-    `needed_total_padding ≥ k_dil - s`). -/
-theorem stripe_receptive (k s d top skB H y0 y1 w0 : Int)
-    (hs : 1 ≤ s) (hd : 1 ≤ d)
-    (h0 : 0 ≤ y0 - w0) (h01 : y0 < y1) (h1 : y1 - w0 ≤ H)
-    (hT : 0 ≤ top) (hsk : dilated k d - s ≤ top + skB) :
-    let r := transformH y0 y1 w0 none (some (s, top, skB)) H 1 (dilated k d)
-    let o : Op := { k := k, s := s, d := d, top := top, H := H, off := 0, up := 1, mode := .none }
+    The OFM stripe may end below the IFM (explicit padding of a fused PAD: OFM taller than IFM).
+    Hypotheses: the skirt is at least the minimal total padding `k_dil - s` (`skirt_hypothesis`: true of every
+    skirt of `calc_padding_and_skirt`), and for coverage a stripe ending below the IFM needs a non-negative
+    bottom skirt (true whenever the OFM can be taller than the IFM, i.e. stride 1).
+    Before the repairs (`fixed:` lines of known_findings.txt) this held only for `y1 - w0 ≤ H` and without read
+    offset; the former witnesses were: PAD(1,1) + conv2x2/s1 over 128 rows, stripe [126,129) → box [125,128),
+    `pad_bottom = 0`, last tap on row 128; slice w=5 + conv1x1/s2 → box columns [10,28); slice h=3 + conv5x5 SAME →
+    box rows [1,24) with `pad_top = 2`. -/
+theorem stripe_receptive (k s d top skB H y0 y1 w0 : Int) (off : Option Int)
+    (hs : 1 ≤ s) (hd : 1 ≤ d) (hH : 1 ≤ H)
+    (h0 : 0 ≤ y0 - w0) (h01 : y0 < y1)
+    (hT : 0 ≤ top) (hsk : dilated k d - s ≤ top + skB) (hcov : y1 - w0 ≤ H ∨ 0 ≤ skB) :
+    let r := transformH y0 y1 w0 off (some (s, top, skB)) H 1 (dilated k d)
+    let o : Op := { k := k, s := s, d := d, top := top, H := H, off := offOf off, up := 1, mode := .none }
     let st : Stripe := { y0 := y0 - w0, h := y1 - y0, a := r.a, b := r.b, pt := r.pt, pb := r.pb }
     Equations o st ∧ Receptive o st ∧ BoxCovers o st := by
   intro r o st
-  obtain ⟨ha, hpt, hpb, hb, he⟩ := transformH_up1 y0 y1 w0 s top skB H (dilated k d) hs h0 h01 h1 hT hsk
+  obtain ⟨ha, hpt, hpb, hb, he⟩ := transformH_up1 y0 y1 w0 s top skB H (dilated k d) off hs h01 hsk
   have e1 : (y0 - w0 + (y1 - y0)) * s = (y1 - w0) * s := by ring
   have e2 : (y1 - y0 - 1) * s = (y1 - w0) * s - (y0 - w0) * s - s := by ring
   have hge : (y0 - w0) * s + s ≤ (y1 - w0) * s := by
     have : (y0 - w0 + 1) * s ≤ (y1 - w0) * s := Int.mul_le_mul_of_nonneg_right (by omega) (by omega)
     have e3 : (y0 - w0 + 1) * s = (y0 - w0) * s + s := by ring
     omega
+  have h0s : 0 ≤ (y0 - w0) * s := Int.mul_nonneg h0 (by omega)
   have heq : Equations o st := by
     simp only [Equations, o, st, implicitExtent, e1, e2]
     rw [show r.a = _ from ha, show r.pt = _ from hpt, show r.pb = _ from hpb]
@@ -47,23 +53,34 @@ theorem stripe_receptive (k s d top skB H y0 y1 w0 : Int)
     omega
   refine ⟨heq, receptive_of_equations o st rfl rfl (by simp only [o]; omega) (by simp only [o]; omega) ?_ heq,
     covers_of_equations o st rfl (by simp only [o]; omega) (by simp only [o]; omega) heq ?_⟩
-  · show (0 : Int) ≤ r.a
+  · show offOf off ≤ r.a
     rw [show r.a = _ from ha]; omega
-  · show (0 : Int) + min ((y0 - w0 + (y1 - y0)) * s - s - top + dilated k d) H ≤ r.b
+  · show offOf off + min ((y0 - w0 + (y1 - y0)) * s - s - top + dilated k d) H ≤ r.b
     rw [e1, show r.b = _ from hb]
-    generalize (y1 - w0) * s = Y1 at *
-    omega
+    have hHs : H ≤ H * s := by
+      have : H * 1 ≤ H * s := Int.mul_le_mul_of_nonneg_left hs (by omega)
+      omega
+    by_cases hc : y1 - w0 ≤ H
+    · have : min (y1 - w0) H = y1 - w0 := by omega
+      rw [this]
+      generalize (y1 - w0) * s = Y1 at *
+      omega
+    · have : min (y1 - w0) H = H := by omega
+      rw [this]
+      generalize (y1 - w0) * s = Y1 at *
+      generalize H * s = HS at *
+      omega
 
 /-- **`box_covers`**: the IFM box handed to address generation contains every row the hardware touches
     (it may over-read: e.g. conv3x3/s3 SAME over 37 rows, stripe `[4,7)`: rows `[11,20)` are read, the box is `[11,22)`). -/
-theorem box_covers (k s d top skB H y0 y1 w0 : Int)
-    (hs : 1 ≤ s) (hd : 1 ≤ d)
-    (h0 : 0 ≤ y0 - w0) (h01 : y0 < y1) (h1 : y1 - w0 ≤ H)
-    (hT : 0 ≤ top) (hsk : dilated k d - s ≤ top + skB) :
-    let r := transformH y0 y1 w0 none (some (s, top, skB)) H 1 (dilated k d)
-    BoxCovers { k := k, s := s, d := d, top := top, H := H, off := 0, up := 1, mode := .none }
+theorem box_covers (k s d top skB H y0 y1 w0 : Int) (off : Option Int)
+    (hs : 1 ≤ s) (hd : 1 ≤ d) (hH : 1 ≤ H)
+    (h0 : 0 ≤ y0 - w0) (h01 : y0 < y1)
+    (hT : 0 ≤ top) (hsk : dilated k d - s ≤ top + skB) (hcov : y1 - w0 ≤ H ∨ 0 ≤ skB) :
+    let r := transformH y0 y1 w0 off (some (s, top, skB)) H 1 (dilated k d)
+    BoxCovers { k := k, s := s, d := d, top := top, H := H, off := offOf off, up := 1, mode := .none }
       { y0 := y0 - w0, h := y1 - y0, a := r.a, b := r.b, pt := r.pt, pb := r.pb } :=
-  (stripe_receptive k s d top skB H y0 y1 w0 hs hd h0 h01 h1 hT hsk).2.2
+  (stripe_receptive k s d top skB H y0 y1 w0 off hs hd hH h0 h01 hT hsk hcov).2.2
 
 /-- **The skirt hypothesis holds for every skirt `calc_padding_and_skirt` produces** (all padding modes):
     `skirt_top + skirt_bottom = needed_total_padding ≥ k_dil - stride`, on both axes; and
@@ -161,9 +178,10 @@ theorem tile_addresses (y0 y1 x0 x1 B W : Nat) (t : Tiles)
     (r : Nat) (hr0 : y0 ≤ r) (hr1 : r < y1) : hwSlot t y0 r = some (r % B) :=
   hwSlot_eq_mod y0 y1 x0 x1 B W t h hle r hr0 hr1
 
-/-- `rolling_buffer_shape`: the buffer is at least producer stripe + consumer input stripe high -/
-theorem rolling_buffer_height_ge (pH pW pD cH cW h w d : Nat)
-    (hr : rollingBufferShape pH pW pD cH cW = .ok (h, w, d)) : pH + cH ≤ h ∧ h % cH = 0 := by
+/-- `rolling_buffer_shape`: the buffer is at least producer stripe + consumer input stripe + (over-read - 1) high
+    and a multiple of the consumer input stripe -/
+theorem rolling_buffer_height_ge (pH pW pD cH cW over h w d : Nat)
+    (hr : rollingBufferShape pH pW pD cH cW over = .ok (h, w, d)) : pH + cH + (over - 1) ≤ h ∧ h % cH = 0 := by
   unfold rollingBufferShape at hr
   split at hr
   · cases hr
@@ -173,29 +191,26 @@ theorem rolling_buffer_height_ge (pH pW pD cH cW h w d : Nat)
     subst h1
     unfold Cascade.roundUp
     constructor
-    · have h2 := Nat.div_add_mod (pH + cH + cH - 1) cH
-      have h3 := Nat.mod_lt (pH + cH + cH - 1) (by omega : cH > 0)
-      have e : (pH + cH + cH - 1) / cH * cH = cH * ((pH + cH + cH - 1) / cH) := Nat.mul_comm _ _
+    · have h2 := Nat.div_add_mod (pH + cH + (over - 1) + cH - 1) cH
+      have h3 := Nat.mod_lt (pH + cH + (over - 1) + cH - 1) (by omega : cH > 0)
+      have e : (pH + cH + (over - 1) + cH - 1) / cH * cH = cH * ((pH + cH + (over - 1) + cH - 1) / cH) := Nat.mul_comm _ _
       omega
     · exact Nat.mul_mod_left _ _
 
-/- Full statement (FALSE of the unchanged code, see `rolling_insufficient_witness`):
-   `rolling_sufficient`: for every producer stripe height p, consumer stripe, kernel, stride and padding,
-   with B = round_up(p + c, c), no row of the rolling buffer is overwritten before the last consumer
-   stripe that needs it has been issued.
-   Proved part: when a consumer stripe whose hardware reads start at row `a` is issued, the generator has
-   let the producer run to `frontier p H b` (first producer stripe boundary at or after the end `b` of the
-   *requested box*, over-read included).  Row `r ≥ a` still sits in slot `r mod B` iff
-   `frontier ≤ r + B`; so safety is `frontier p H b ≤ a + B`, and it holds under the exact inequality the
-   proof forces:  stride + skirt_top + skirt_bottom ≤ k_dil + 1 + (B - p - c)
-   (over-read of the box beyond the receptive field ≤ 1 + round-up slack of the buffer).
-   `rolling_rows_in_slot_partial` restates the conclusion in the Spec's own memory terms (every row the
-   hardware touches is found in its slot after the producer has written `[0, frontier)`), using
-   `Lemmas/Cascade.slot_holds_iff` (slot `r mod B` holds `r` iff `r < P ≤ r + B`).
-   Missing: the inequality is not implied by the code (it fails e.g. for k=3, s=3, SAME, H ≡ 1 mod 3),
-   and the link from `Model/Cascade.cascadeOrder` to `frontier` is validated by the check (issue order
-   of the model = issue order of the real generator; Lean simulation of the real order), not proved. -/
-theorem rolling_sufficient_partial (H p q s kd top skB B y0 y1 : Int)
+/-- **Arithmetic core of rolling-buffer safety.**  When a consumer stripe whose hardware reads start at row `a`
+    is issued, the generator has let the producer run to `frontier p H b` (first producer stripe boundary at or
+    after the end `b` of the *requested box*, over-read included).  Row `r ≥ a` still sits in slot `r mod B` iff
+    `frontier ≤ r + B`; so safety is `frontier p H b ≤ a + B`, and it holds under the exact inequality the proof
+    forces:  stride + skirt_top + skirt_bottom ≤ k_dil + 1 + (B - p - c)
+    (over-read of the box beyond the receptive field ≤ 1 + slack of the buffer).  `rolling_sufficient` shows that the
+    buffer `rolling_buffer_shape` returns satisfies it.  Before the repair (`fixed:` line of known_findings.txt) the
+    buffer was `round_up(p + c, c)` and the inequality failed e.g. for k=3, s=3, SAME, H ≡ 1 mod 3: for
+    conv3x3/s1 → conv3x3/s3 SAME, H=37, p=3, c=3, B=6 the order `o0[0,3) o0[3,6) o1[0] o0[6,9) o1[1]` made consumer
+    stripe 1 read row 8 where it expected row 2 (former `rolling_insufficient_witness`).
+    Not proved: that `Model/Cascade.cascadeOrder` issues a consumer stripe exactly when the producer reached
+    `frontier` — validated by the check (issue order of the model = issue order of the real generator; Lean simulation
+    of the real order). -/
+theorem rolling_sufficient_of_slack (H p q s kd top skB B y0 y1 : Int)
     (hp : 1 ≤ p) (hq : 1 ≤ q) (hs : 1 ≤ s) (hkd : 1 ≤ kd) (hH : 1 ≤ H)
     (hy0 : 0 ≤ y0) (hy : y0 < y1) (hyq : y1 ≤ y0 + q) (hyH : y1 ≤ H) (hT : 0 ≤ top)
     (hB : p + min ((q - 1) * s + kd) H ≤ B)
@@ -212,10 +227,10 @@ theorem rolling_sufficient_partial (H p q s kd top skB B y0 y1 : Int)
   have h0s : 0 ≤ y0 * s := Int.mul_nonneg hy0 (by omega)
   have hQ : 0 ≤ (q - 1) * s := Int.mul_nonneg (by omega) (by omega)
   have hra : r.a = max (y0 * s - top) 0 := by
-    simp only [r, transformH, Int.emod_one, Int.ediv_one, Int.add_zero, Int.sub_zero, Int.mul_one]
+    simp only [r, transformH, offOf, Int.emod_one, Int.ediv_one, Int.add_zero, Int.sub_zero, Int.mul_one, if_true]
     omega
   have hrb : r.b = max (min (y1 * s + skB) H) 1 := by
-    simp only [r, transformH, Int.emod_one, Int.ediv_one, Int.add_zero, Int.sub_zero, Int.mul_one, hmin]
+    simp only [r, transformH, offOf, Int.emod_one, Int.ediv_one, Int.add_zero, Int.sub_zero, Int.mul_one, hmin]
   unfold frontier
   rw [hra]
   rw [hrb] at hdiv ⊢
@@ -273,12 +288,63 @@ theorem columns_receptive (k s d l skR W x0 x1 w0 tE bE rE : Int)
     omega
 
 
+/-- **Receptive field, columns, with a fused slice read**: the operator reads the `shp` columns starting at column `o`
+    of a tensor `TW` columns wide.  The box is computed in the columns of the slice and moved by `o`; `create_padding`
+    keeps `left` iff the box starts at the first slice column and `right` iff the box end reaches `shp`
+    (its bound is the read *shape*, not offset + shape: hypothesis `hreach` — every full-width stripe satisfies it). -/
+theorem columns_receptive_slice (k s d l skR shp TW o x0 x1 w0 tE bE rE : Int)
+    (hs : 1 ≤ s) (hd : 1 ≤ d) (ho : 0 ≤ o)
+    (h0 : 0 ≤ x0 - w0) (h01 : x0 < x1) (h1 : x1 - w0 ≤ TW)
+    (hL : 0 ≤ l) (hsk : dilated k d - s ≤ l + skR)
+    (hleft : x0 - w0 = 0 ∨ l < (x0 - w0) * s)
+    (hright : shp ≤ (x1 - w0) * s + skR → rE = max ((x1 - w0) * s - s - l + dilated k d - shp) 0)
+    (hreach : o = 0 ∨ shp ≤ (x1 - w0) * s + skR ∨ rE = 0)
+    (first last : Bool) (ct cb : Int) :
+    let ab := transformW x0 x1 w0 (some (o, shp)) (some (s, l, skR)) TW 1
+    let pad := createPadding { vectorProduct := false, explicit := ⟨tE, l, bE, rE⟩, isFirst := first, isLast := last,
+                               cmdTop := ct, cmdBottom := cb, boxX0 := ab.1, boxX1 := ab.2, read := some (o, shp), ifmW := TW, tile := false }
+    let op : Op := { k := k, s := s, d := d, top := l, H := shp, off := o, up := 1, mode := .none }
+    let st : Stripe := { y0 := x0 - w0, h := x1 - x0, a := ab.1, b := ab.2, pt := pad.left, pb := pad.right }
+    Equations op st ∧ Receptive op st ∧ BoxCovers op st := by
+  intro ab pad op st
+  have hmin : min (x1 - w0) TW = x1 - w0 := by omega
+  have e1 : (x0 - w0 + (x1 - x0)) * s = (x1 - w0) * s := by ring
+  have e2 : (x1 - x0 - 1) * s = (x1 - w0) * s - (x0 - w0) * s - s := by ring
+  have hge : (x0 - w0) * s + s ≤ (x1 - w0) * s := by
+    have : (x0 - w0 + 1) * s ≤ (x1 - w0) * s := Int.mul_le_mul_of_nonneg_right (by omega) (by omega)
+    have e3 : (x0 - w0 + 1) * s = (x0 - w0) * s + s := by ring
+    omega
+  have h0s : 0 ≤ (x0 - w0) * s := Int.mul_nonneg h0 (by omega)
+  have ha : ab.1 = max ((x0 - w0) * s - l + o) o := by
+    simp only [ab, transformW, Int.mul_one]
+  have hb : ab.2 = min ((x1 - w0) * s + skR + o) (o + shp) := by
+    simp only [ab, transformW, Int.mul_one, hmin]
+  have hpl : pad.left = if ab.1 > o then 0 else l := by
+    simp only [pad, createPadding, Bool.false_eq_true, if_false]
+  have hpr : pad.right = if ab.2 < shp then 0 else rE := by
+    simp only [pad, createPadding, Bool.false_eq_true, if_false]
+  have hz : x0 - w0 = 0 → (x0 - w0) * s = 0 := by intro h; rw [h]; simp
+  have heq : Equations op st := by
+    simp only [Equations, op, st, implicitExtent, e1, e2]
+    rw [hpl, hpr, ha, hb]
+    generalize (x0 - w0) * s = X0 at *
+    generalize (x1 - w0) * s = X1 at *
+    split <;> split <;> omega
+  refine ⟨heq, receptive_of_equations op st rfl rfl (by simp only [op]; omega) (by simp only [op]; omega) ?_ heq,
+    covers_of_equations op st rfl (by simp only [op]; omega) (by simp only [op]; omega) heq ?_⟩
+  · show o ≤ ab.1
+    rw [ha]; omega
+  · show o + min ((x0 - w0 + (x1 - x0)) * s - s - l + dilated k d) shp ≤ ab.2
+    rw [e1, hb]
+    generalize (x1 - w0) * s = X1 at *
+    omega
+
 /-- **Rows read by a consumer stripe are still in their slots** (the rolling-buffer rule in the Spec's own
-    terms, under the hypothesis of `rolling_sufficient_partial`): when the producer has written rows
+    terms, under the hypothesis of `rolling_sufficient_of_slack`): when the producer has written rows
     `[0, frontier)` in order into a buffer of `B` rows (`Spec.writeAll`), every row the hardware touches for
     the consumer stripe `[y0, y1)` — from the box start to the end of the implicit extent — is found in slot
     `row mod B` (`Mem.get … = some row`): it has been written and no later row has overwritten it. -/
-theorem rolling_rows_in_slot_partial (H p q s d k top skB B y0 y1 : Int) (t : Nat)
+theorem rolling_rows_in_slot_of_slack (H p q s d k top skB B y0 y1 : Int) (t : Nat)
     (hp : 1 ≤ p) (hq : 1 ≤ q) (hs : 1 ≤ s) (hd : 1 ≤ d) (hk : 1 ≤ k) (hH : 1 ≤ H)
     (hy0 : 0 ≤ y0) (hy : y0 < y1) (hyq : y1 ≤ y0 + q) (hyH : y1 ≤ H) (hT : 0 ≤ top)
     (hsk : dilated k d - s ≤ top + skB)
@@ -290,7 +356,7 @@ theorem rolling_rows_in_slot_partial (H p q s d k top skB B y0 y1 : Int) (t : Na
       (writeAll t B.toNat P.toNat).get t (row.toNat % B.toNat) = some row.toNat := by
   intro r P row h1 h2
   have hra0 : 0 ≤ r.a := by
-    simp only [r, transformH]
+    simp only [r, transformH, offOf]
     omega
   suffices hmain : row < P ∧ P ≤ row + B by
     have hBpos : 0 < B := by
@@ -305,11 +371,12 @@ theorem rolling_rows_in_slot_partial (H p q s d k top skB B y0 y1 : Int) (t : Na
     unfold dilated
     have : 0 ≤ (k - 1) * d := Int.mul_nonneg (by omega) (by omega)
     omega
-  have hroll := rolling_sufficient_partial H p q s (dilated k d) top skB B y0 y1 hp hq hs hkd hH hy0 hy hyq hyH hT hB hover
-  obtain ⟨heq, _, _⟩ := stripe_receptive k s d top skB H y0 y1 0 hs hd (by omega) hy (by omega) hT hsk
-  obtain ⟨_, _, _, hb, he⟩ := transformH_up1 y0 y1 0 s top skB H (dilated k d) hs (by omega) hy (by omega) hT hsk
+  have hroll := rolling_sufficient_of_slack H p q s (dilated k d) top skB B y0 y1 hp hq hs hkd hH hy0 hy hyq hyH hT hB hover
+  obtain ⟨heq, _, _⟩ := stripe_receptive k s d top skB H y0 y1 0 none hs hd hH (by omega) hy hT hsk (Or.inl (by omega))
+  obtain ⟨_, _, _, hb, he⟩ := transformH_up1 y0 y1 0 s top skB H (dilated k d) none hs hy hsk
   obtain ⟨_, _, _, e4⟩ := heq
-  simp only [Int.sub_zero] at e4 hb he
+  have hmin : min y1 H = y1 := by omega
+  simp only [Int.sub_zero, offOf, Int.add_zero, hmin] at e4 hb he
   have hbH : r.b ≤ H := by rw [show r.b = _ from hb]; omega
   have hfg := frontier_ge p H r.b hp hbH
   have e1 : (y0 + (y1 - y0)) * s = y1 * s := by ring
@@ -328,6 +395,46 @@ theorem rolling_rows_in_slot_partial (H p q s d k top skB B y0 y1 : Int) (t : Na
     have : frontier p H r.b ≤ r.a + B := hroll
     omega
 
+/-- the buffer `rolling_buffer_shape` returns for the over-read `ifm_box_overread` computes satisfies the
+    inequality of `rolling_sufficient_of_slack` -/
+theorem buffer_slack (H q s kd top skB : Int) (pN pW pD cN cW BN w dd : Nat)
+    (hc : (cN : Int) = min ((q - 1) * s + kd) H)
+    (hbuf : rollingBufferShape pN pW pD cN cW (ifmBoxOverread (some (top, skB)) s kd) = .ok (BN, w, dd)) :
+    (pN : Int) + min ((q - 1) * s + kd) H ≤ BN ∧
+    s + top + skB ≤ kd + 1 + ((BN : Int) - pN - min ((q - 1) * s + kd) H) := by
+  have h := (rolling_buffer_height_ge pN pW pD cN cW _ BN w dd hbuf).1
+  simp only [ifmBoxOverread] at h
+  omega
+
+/-- **Rolling buffers are tall enough** (full statement, for the repaired `rolling_buffer_shape`): for every producer
+    stripe height `p`, consumer stripe `[y0, y1)` of at most `q` rows, kernel, stride, dilation and skirt, with the
+    buffer height `B` that `rolling_buffer_shape(p, c, ifm_box_overread)` returns for the consumer input stripe
+    `c = min((q-1)*s + k_dil, H)`: when the consumer stripe is issued (producer at `frontier`), every row the
+    hardware touches for it is found in slot `row mod B` of the Spec's memory model — written, and not overwritten
+    by a later row. -/
+theorem rolling_sufficient (H q s d k top skB y0 y1 : Int) (pN pW pD cN cW BN w dd t : Nat)
+    (hp : 1 ≤ pN) (hq : 1 ≤ q) (hs : 1 ≤ s) (hd : 1 ≤ d) (hk : 1 ≤ k) (hH : 1 ≤ H)
+    (hy0 : 0 ≤ y0) (hy : y0 < y1) (hyq : y1 ≤ y0 + q) (hyH : y1 ≤ H) (hT : 0 ≤ top)
+    (hsk : dilated k d - s ≤ top + skB)
+    (hc : (cN : Int) = min ((q - 1) * s + dilated k d) H)
+    (hbuf : rollingBufferShape pN pW pD cN cW (ifmBoxOverread (some (top, skB)) s (dilated k d)) = .ok (BN, w, dd)) :
+    let r := transformH y0 y1 0 none (some (s, top, skB)) H 1 (dilated k d)
+    let P := frontier pN H r.b
+    P ≤ r.a + BN ∧
+    ∀ row : Int, r.a ≤ row → row < r.a + implicitExtent (y1 - y0) s (dilated k d) r.pt r.pb →
+      (writeAll t BN P.toNat).get t (row.toNat % BN) = some row.toNat := by
+  intro r P
+  obtain ⟨hB, hover⟩ := buffer_slack H q s (dilated k d) top skB pN pW pD cN cW BN w dd hc hbuf
+  have hkd : 1 ≤ dilated k d := by
+    unfold dilated
+    have : 0 ≤ (k - 1) * d := Int.mul_nonneg (by omega) (by omega)
+    omega
+  refine ⟨rolling_sufficient_of_slack H pN q s (dilated k d) top skB BN y0 y1 (by omega) hq hs hkd hH hy0 hy hyq hyH hT hB hover, ?_⟩
+  intro row h1 h2
+  have := rolling_rows_in_slot_of_slack H pN q s d k top skB BN y0 y1 t (by omega) hq hs hd hk hH hy0 hy hyq hyH hT hsk hB hover
+    row h1 h2
+  simpa using this
+
 /-- conv3x3/s1 SAME over 37 rows in stripes of 3 → conv3x3/s3 SAME (13 output rows, one per stripe):
     `p = 3`, `c = 3`, `B = round_up(6, 3) = 6` -/
 def witnessOps : List OpDesc :=
@@ -338,30 +445,26 @@ def witnessOps : List OpDesc :=
       strides := some (3, 3), skirt := some (1, 1, 1, 1), ifm := ⟨1, 37, 64, 32⟩, fullDepth := true, concat := ⟨0, 0, 0, 0⟩,
       kdil := 3, split := none, up := 1, binEw := false } ]
 
-/-- **The rolling buffer of the unchanged code is too small**: in the issue order the generator produces
-    for the witness (`o0[0,3) o0[3,6) o1[0] o0[6,9) o1[1] …`) with the buffer height `rolling_buffer_shape`
-    gives (6), the fifth command (consumer stripe 1) reads row 2 from slot 2 and finds row 8. -/
-theorem rolling_insufficient_witness :
-    rollingBufferShape 3 64 32 3 64 = .ok (6, 64, 32) ∧
+/-- The former witness of the too small rolling buffer (conv3x3/s1 → conv3x3/s3 SAME, H=37, p=3, c=3): the IFM box of
+    the consumer over-reads by `3 + 1 + 1 - 3 = 2` rows, `rolling_buffer_shape` now returns 9 rows instead of 6, and in the
+    issue order of the generator (`o0[0,3) o0[3,6) o1[0] o0[6,9) o1[1] …`) every row is found in its slot. -/
+theorem rolling_witness_repaired :
+    ifmBoxOverread (some (1, 1)) 3 3 = 2 ∧
+    rollingBufferShape 3 64 32 3 64 2 = .ok (9, 64, 32) ∧
     ((cascadeOrder witnessOps).1.take 5).map (fun c => (c.op, c.ofm.y0, c.ofm.y1)) =
       [(0, 0, 3), (0, 3, 6), (1, 0, 1), (0, 6, 9), (1, 1, 2)] ∧
+    checkRolling (accessesOf witnessOps [9, 13] (cascadeOrder witnessOps).1) = .ok ∧
     checkRolling (accessesOf witnessOps [6, 13] (cascadeOrder witnessOps).1) = .bad 4 1 2 2 (some 8) := by
   decide +kernel
 
-/-- the witness violates exactly the hypothesis of `rolling_sufficient_partial`:
-    over-read `3 + 1 + 1 - 3 = 2 > 1 + (6 - 3 - 3)` -/
-example : ¬ ((3 : Int) + 1 + 1 ≤ 3 + 1 + (6 - 3 - min ((1 - 1) * 3 + 3) 37)) := by decide
-
-/-- **An OFM stripe that ends below the IFM loses its bottom padding** (why `stripe_receptive` needs
-    `y1 - w0 ≤ H`): PAD(1,1) fused into a 2x2 stride-1 convolution over 128 rows, stripe `[126, 129)`:
-    the code returns box `[125, 128)` with `pad_bottom = 0`, the hardware's implicit extent is 4 rows and
-    its last tap addresses row 128 of a 128-row tensor where the operator reads padding. -/
-theorem stripe_receptive_tall_ofm_witness :
+/-- An OFM stripe that ends below the IFM keeps its bottom padding (instance of `stripe_receptive`; before the repair
+    this was the witness of the lost `pad_bottom`): PAD(1,1) fused into a 2x2 stride-1 convolution over 128 rows,
+    stripe `[126, 129)`: box `[125, 128)`, `pad_bottom = 1`, and the Spec accepts it. -/
+theorem stripe_receptive_tall_ofm_repaired :
     let r := transformH 126 129 0 none (some (1, 1, 0)) 128 1 2
-    (r.a, r.b, r.pt, r.pb) = (125, 128, 0, 0) ∧
-    checkReceptive ⟨2, 1, 1, 1, 128, 0, 1, .none⟩ ⟨126, 3, r.a, r.b, r.pt, r.pb⟩ = false ∧
-    hwSrc ⟨2, 1, 1, 1, 128, 0, 1, .none⟩ ⟨126, 3, r.a, r.b, r.pt, r.pb⟩ 2 1 = .row 128 ∧
-    refSrc ⟨2, 1, 1, 1, 128, 0, 1, .none⟩ 128 1 = .pad := by
+    (r.a, r.b, r.pt, r.pb) = (125, 128, 0, 1) ∧
+    checkReceptive ⟨2, 1, 1, 1, 128, 0, 1, .none⟩ ⟨126, 3, r.a, r.b, r.pt, r.pb⟩ = true ∧
+    checkBoxCovers ⟨2, 1, 1, 1, 128, 0, 1, .none⟩ ⟨126, 3, r.a, r.b, r.pt, r.pb⟩ = true := by
   decide +kernel
 
 /- Full statement: `stripe_receptive` for every upscaling factor and resampling mode, every stripe.
@@ -383,7 +486,7 @@ theorem stripe_receptive_transpose_partial (k top skB H y0 y1 : Int)
     Receptive o st := by
   intro r o st y j hy0 hy hj0 hj
   rw [refSrc_transpose o rfl]
-  simp only [hwSrc, implicitExtent, dilated, o, st, r, transformH, Int.mul_one, Int.sub_zero, Int.add_zero] at *
+  simp only [hwSrc, implicitExtent, dilated, o, st, r, transformH, offOf, Int.mul_one, Int.sub_zero, Int.add_zero] at *
   repeat' split
   all_goals first | rfl | omega | (congr 1; omega)
 
@@ -395,7 +498,7 @@ theorem box_covers_transpose_partial (k top skB H y0 y1 : Int)
     let st : Stripe := { y0 := y0, h := y1 - y0, a := r.a, b := r.b, pt := r.pt, pb := r.pb }
     BoxCovers o st := by
   intro r o st y j hy0 hy hj0 hj row
-  simp only [hwSrc, implicitExtent, dilated, o, st, r, transformH, Int.mul_one, Int.sub_zero, Int.add_zero] at *
+  simp only [hwSrc, implicitExtent, dilated, o, st, r, transformH, offOf, Int.mul_one, Int.sub_zero, Int.add_zero] at *
   repeat' split
   all_goals (intro hrow; first | (injection hrow with hrow; omega) | cases hrow)
 
@@ -408,7 +511,7 @@ theorem stripe_receptive_nearest_partial (k top skB H y0 y1 : Int)
     Receptive o st := by
   intro r o st y j hy0 hy hj0 hj
   rw [refSrc_nearest o rfl]
-  simp only [hwSrc, implicitExtent, dilated, o, st, r, transformH, Int.mul_one, Int.sub_zero, Int.add_zero] at *
+  simp only [hwSrc, implicitExtent, dilated, o, st, r, transformH, offOf, Int.mul_one, Int.sub_zero, Int.add_zero] at *
   repeat' split
   all_goals first | rfl | omega | (congr 1; omega)
 
@@ -420,28 +523,26 @@ theorem box_covers_nearest_partial (k top skB H y0 y1 : Int)
     let st : Stripe := { y0 := y0, h := y1 - y0, a := r.a, b := r.b, pt := r.pt, pb := r.pb }
     BoxCovers o st := by
   intro r o st y j hy0 hy hj0 hj row
-  simp only [hwSrc, implicitExtent, dilated, o, st, r, transformH, Int.mul_one, Int.sub_zero, Int.add_zero] at *
+  simp only [hwSrc, implicitExtent, dilated, o, st, r, transformH, offOf, Int.mul_one, Int.sub_zero, Int.add_zero] at *
   repeat' split
   all_goals (intro hrow; first | (injection hrow with hrow; omega) | cases hrow)
 
-/-- **A fused slice read is scaled by the stride** (why the theorems are stated for operators without a read
-    offset): STRIDED_SLICE begin w=5 of 32 columns fused into a 1x1 stride-2 convolution (12 output columns):
-    the box starts at column (0+5)*2 = 10 and output column 0 reads stored column 10, the operator reads
-    column 5 (slice column 0). -/
-theorem read_offset_stride_witness :
-    transformW 0 12 0 (some (5, 23)) (some (2, 0, 0)) 32 1 = (10, 28) ∧
-    hwSrc ⟨1, 2, 1, 0, 23, 5, 1, .none⟩ ⟨0, 12, 10, 28, 0, 0⟩ 0 0 = .row 10 ∧
-    refSrc ⟨1, 2, 1, 0, 23, 5, 1, .none⟩ 0 0 = .row 5 := by
+/-- A fused slice read is applied after the scaling by the stride (instance of `columns_receptive` with a read offset;
+    before the repair the box started at column (0+5)*2 = 10): STRIDED_SLICE begin w=5 (23 of 32 columns) fused into
+    a 1x1 stride-2 convolution (12 output columns): box columns `[5, 28)`, output column 0 reads stored column 5. -/
+theorem read_offset_stride_repaired :
+    transformW 0 12 0 (some (5, 23)) (some (2, 0, 0)) 32 1 = (5, 28) ∧
+    checkReceptive ⟨1, 2, 1, 0, 23, 5, 1, .none⟩ ⟨0, 12, 5, 28, 0, 0⟩ = true := by
   decide +kernel
 
-/-- **Rows of a fused slice read are clamped to the tensor, not to the slice**: STRIDED_SLICE begin h=3
-    (19 of 24 rows) fused into a 5x5 SAME convolution executed as one stripe: box rows `[1, 24)`, explicit
-    `pad_top = 2`; tap 2 of output row 0 reads stored row 1, the operator reads slice row 0 = stored row 3. -/
-theorem read_offset_rows_witness :
-    let r := transformH 0 19 0 (some 3) (some (1, 2, 2)) 24 1 5
-    (r.a, r.b) = (1, 24) ∧
-    hwSrc ⟨5, 1, 1, 2, 19, 3, 1, .none⟩ ⟨0, 19, r.a, r.b, 2, 2⟩ 0 2 = .row 1 ∧
-    refSrc ⟨5, 1, 1, 2, 19, 3, 1, .none⟩ 0 2 = .row 3 := by
+/-- Rows of a fused slice read are those of the slice (instance of `stripe_receptive` with a read offset; before the
+    repair the box was rows `[1, 24)` with `pad_top = 2` and stored rows 1, 2 were read as if they were padding rows):
+    STRIDED_SLICE begin h=3 (19 of 24 rows) fused into a 5x5 SAME convolution executed as one stripe: box rows
+    `[3, 22)`, and with the explicit padding (2, 2) every tap reads what the operator on the slice reads. -/
+theorem read_offset_rows_repaired :
+    let r := transformH 0 19 0 (some 3) (some (1, 2, 2)) 19 1 5
+    (r.a, r.b, r.pt, r.pb) = (3, 22, 2, 2) ∧
+    checkReceptive ⟨5, 1, 1, 2, 19, 3, 1, .none⟩ ⟨0, 19, r.a, r.b, 2, 2⟩ = true := by
   decide +kernel
 
 /-- an odd stripe start breaks the receptive field under upscaling (why the `_partial` theorems need
